@@ -313,8 +313,17 @@ func ruleR07k(c *Ctx) {
 	info := p.TypesInfo
 	// U: checker fields read in CheckDataRefs
 	U := map[*types.Var]bool{}
+	assigned := map[ast.Expr]bool{} // selectors that are only being (re)set, not read
 	ast.Inspect(entry.Body, func(x ast.Node) bool {
-		if se, ok := x.(*ast.SelectorExpr); ok {
+		if as, ok := x.(*ast.AssignStmt); ok {
+			for _, l := range as.Lhs {
+				assigned[ast.Unparen(l)] = true
+			}
+		}
+		return true
+	})
+	ast.Inspect(entry.Body, func(x ast.Node) bool {
+		if se, ok := x.(*ast.SelectorExpr); ok && !assigned[se] {
 			if fv := fieldOf(se, info); fv != nil {
 				if _, ok := fv.Type().Underlying().(*types.Slice); ok && fv.Name() != "params" {
 					U[fv] = true
@@ -325,7 +334,11 @@ func ruleR07k(c *Ctx) {
 	})
 	// L: fields the Let/For arms append to
 	L := map[*types.Var]bool{}
-	ast.Inspect(ck.Body, func(x ast.Node) bool {
+	ckScope := &ast.BlockStmt{} // checkTemplate and the methods its arms were moved into
+	for _, hd := range c.withHelpers("parsepasses", ck, 1) {
+		ckScope.List = append(ckScope.List, hd.Body)
+	}
+	ast.Inspect(ckScope, func(x ast.Node) bool {
 		as, ok := x.(*ast.AssignStmt)
 		if !ok || len(as.Lhs) != 1 || len(as.Rhs) != 1 {
 			return true
@@ -785,7 +798,7 @@ func ruleR07o(c *Ctx) {
 			if !ok || (tn != "LetValueNode" && tn != "LetContentNode") {
 				return true
 			}
-			ast.Inspect(&ast.BlockStmt{List: cc.Body}, func(y ast.Node) bool {
+			ast.Inspect(&ast.BlockStmt{List: c.expandArm("parsepasses", cc.Body).stmts}, func(y ast.Node) bool {
 				if call, ok := y.(*ast.CallExpr); ok {
 					if _, isRaiser := raisers[calleeFunc(call, info)]; isRaiser {
 						covered[tn] = true
